@@ -2232,3 +2232,30 @@ Example C04_cost_make_relative_instance :
     /\ C04_CostRel.make_relative_k true b t = 64
     /\ C04_CostRel.mr_path_k [47;97;47;98;47;99] [47;97;47;100;47;101] = 48.
 Proof. eexists. eexists. split; [vm_compute; reflexivity|]. split; [vm_compute; reflexivity|]. vm_compute. repeat split. Qed.
+
+(* COST OF THE FILE-PATH CONVERSIONS (Proofs/C04_CostFile.v; model Model/FilePath.v, cfg(unix); cost semantics of
+   Model/Cost.v: Path::components() / split('/') examine every byte of their text once, the percent-encoder and the
+   percent-decoder are the twins pe_chunks_c / decode_c - their counts include the bytes written -, push = 1).  The step
+   counts follow the data flow of the model:
+     (1) Url::from_file_path (path_to_file_url_segments; from_directory_path adds two steps): at most 6 |path| + 10;
+     (2) Url::to_file_path (path_segments, the host test, file_url_segments_to_pathbuf): at most 5 |url| + 14 in the length
+         of the serialization.
+   Linear: every component / segment is encoded or decoded once. *)
+From RU Require Proofs.C04_CostFile.
+Theorem C04_cost_file_path :
+  (forall p, C04_CostFile.from_file_path_k p <= 6 * nlen p + 10)
+  /\ (forall u, C04_CostFile.to_file_path_k u <= 5 * nlen (ser u) + 14).
+Proof. exact (conj C04_CostFile.from_file_path_k_le C04_CostFile.to_file_path_k_le). Qed.
+Check C04_cost_file_path :
+  (forall p, C04_CostFile.from_file_path_k p <= 6 * nlen p + 10)
+  /\ (forall u, C04_CostFile.to_file_path_k u <= 5 * nlen (ser u) + 14).
+Print Assumptions C04_cost_file_path.
+
+(* "/a b/../c.txt" -> file:///a%20b/../c.txt in 49 steps, and back in 57 *)
+Example C04_cost_file_path_instance :
+  let p := [47; 97; 32; 98; 47; 46; 46; 47; 99; 46; 116; 120; 116] in
+  C04_CostFile.from_file_path_k p = 49
+  /\ exists u, FilePath.from_file_path p = FilePath.FOk u
+       /\ ser u = [102; 105; 108; 101; 58; 47; 47; 47; 97; 37; 50; 48; 98; 47; 46; 46; 47; 99; 46; 116; 120; 116]
+       /\ FilePath.to_file_path true u = FilePath.FOk p /\ C04_CostFile.to_file_path_k u = 57.
+Proof. cbv zeta. split; [vm_compute; reflexivity|]. eexists. split; [vm_compute; reflexivity|]. vm_compute. repeat split. Qed.
